@@ -610,6 +610,16 @@ func ruleEveryFeeder(w *World, r *Run, rule string) {
 				continue
 			}
 			t := s.Rets[0]
+			if t.Kind == "lookup" && t.Args[0].Kind == "maplit" && t.Args[1] == fp {
+				if k, ok, _ := boolFact(s, mk("lookup", "ok", 0, nil, t.Args[0], fp)); k && ok {
+					m := t.Args[0]
+					for i := 0; i+1 < len(m.Args); i += 2 {
+						if m.Args[i].Kind == "const" {
+							handled[m.Args[i].Name] = m.Args[i+1]
+						}
+					}
+				}
+			}
 			if t.Kind == "lookup" && t.Args[0].Kind == "global" && t.Args[1] == fp {
 				if k, ok, _ := boolFact(s, mk("lookup", "ok", 0, nil, t.Args[0], fp)); k && ok {
 					gname := t.Args[0].Name
